@@ -383,7 +383,17 @@ public:
                             from = QStringLiteral("mallory@stranger.example/x");
                             break;
                         default:
-                            from = r.chance(0.5) ? QStringLiteral("x") + bare : bare + QStringLiteral(".evil");
+                            // look-alikes: extended at either end, the separator replaced (same length, same localpart,
+                            // same domain), a resource of a look-alike, a prefix of the own address, the bare domain
+                            switch (r.uniform(7)) {
+                            case 0: from = QStringLiteral("x") + bare; break;
+                            case 1: from = bare + QStringLiteral(".evil"); break;
+                            case 2: from = QString(bare).replace(QLatin1Char('@'), QLatin1Char('.')); break;
+                            case 3: from = QString(bare).replace(QLatin1Char('@'), QLatin1Char('-')) + QStringLiteral("/r"); break;
+                            case 4: from = bare + QStringLiteral(".evil/balcony"); break;
+                            case 5: from = bare.left(bare.size() - 1); break;
+                            default: from = bare.section(QLatin1Char('@'), 0, 0) + QStringLiteral("@other.") + bare.section(QLatin1Char('@'), 1);
+                            }
                         }
                         const bool foreign = op.arg(0) >= 3;
                         const QString id = QStringLiteral("push%1").arg(++pushNo);
